@@ -116,7 +116,13 @@ def combos():
         for hn, h in hs.items():
             for kn, k in ks.items():
                 for dim, ps in ((3, False), (2, False), (2, True)):
-                    out.append((f"{yn}/{hn}/{kn}/{dim}D{'ps' if ps else ''}", dict(y=y, h=h, k=k, dim=dim, ps=ps, pressure_independent=yn in ("VonMises", "Hill"))))
+                    out.append((f"{yn}/{hn}/{kn}/{dim}D{'ps' if ps else ''}", dict(y=y, h=h, k=k, dim=dim, ps=ps, vis=False, pressure_independent=yn in ("VonMises", "Hill"))))
+    # visco-elastic branches together with plasticity (time step 0.1): the stress relaxes whether or not the point yields, so the
+    # tangent carries the branch terms on elastic steps too; judged by the clauses that do not need the closed form of the stress
+    for hn in ("perfect", "Linear"):
+        for kn in ("none", "Prager", "AF"):
+            for dim, ps in ((3, False), (2, False), (2, True)):
+                out.append((f"VonMises+Maxwell/{hn}/{kn}/{dim}D{'ps' if ps else ''}", dict(y=ys["VonMises"], h=hs[hn], k=ks[kn], dim=dim, ps=ps, vis=True, pressure_independent=True)))
     return out, el
 
 
@@ -138,6 +144,10 @@ def record_combo(job):
                 kw["hardening"] = h
             if k is not None:
                 kw["kinematic"] = k
+            if spec.get("vis"):
+                from EasyFEA.Models.InElastic.ViscoElastic import Maxwell
+
+                kw["branches"] = (Maxwell(0.3, 0.5),)
             laws[solver] = Models.InElastic.Behavior(spec["dim"], el(), planeStress=spec["ps"], **kw)
     except Exception as ex:
         return {"id": ident, "rejected": f"{type(ex).__name__}: {ex}", "steps": []}
@@ -149,6 +159,8 @@ def record_combo(job):
     yld = spec["y"]()
     C6 = np.asarray(law.C)
     slots = law.layout.slots
+    vis = bool(spec.get("vis"))
+    dt = 0.1 if vis else 0.0
     for n in range(14):
         d = rng.normal(size=ns)
         d *= (0.004 if n % 5 else 0.012) / np.linalg.norm(d)
@@ -158,7 +170,7 @@ def record_combo(job):
         E_ = FeArray.asfearray(eps[None, None])
         zin = None if z is None else FeArray.asfearray(np.array(z))
         zcopy = None if z is None else np.array(z).copy()
-        sig, Calg, zNew, ok = law.Integrate(E_, zin)
+        sig, Calg, zNew, ok = law.Integrate(E_, zin, dt)
         if not np.all(ok):
             break
         st = dict(n=n + 1, admissible=1, dp_nonneg=1, traceless=1, dissipation=1, tangent=1, solvers=1, planestress=1, pure=1)
@@ -181,13 +193,13 @@ def record_combo(job):
         f = float(np.asarray(yld.f(FeArray.asfearray((sig6 - X)[None, None]), FeArray.asfearray(np.array([[R]]))))[0, 0])
         # "on or inside the yield surface" to the local solver's accuracy: 1e-7 sigma_y; the plane-stress iteration
         # stops at |sigma_zz| <= 1e-8 sigma_y * stiffness ratio, which moves f by ~1e-7 sigma_y -> 1e-6 there
-        if f > (1e-6 if spec["ps"] else 1e-7):
+        if not vis and f > (1e-6 if spec["ps"] else 1e-7):
             st["admissible"] = 0
             st["f"] = f
         diss = (sig6 - X) @ (epsp_new - epsp_old) - R * (p_new - p_old)
-        if diss < -1e-9:
+        if not vis and diss < -1e-9:
             st["dissipation"] = 0
-        if spec["ps"] and abs(sig6[2]) > 1e-6:
+        if not vis and spec["ps"] and abs(sig6[2]) > 1e-6:
             st["planestress"] = 0
         # tangent by central finite differences from the same committed state
         Cm = np.asarray(Calg)[0, 0]
@@ -204,8 +216,8 @@ def record_combo(job):
                 ep, em = eps.copy(), eps.copy()
                 ep[j] += hfd
                 em[j] -= hfd
-                rp = law.Integrate(FeArray.asfearray(ep[None, None]), zin, withTangent=False)
-                rm = law.Integrate(FeArray.asfearray(em[None, None]), zin, withTangent=False)
+                rp = law.Integrate(FeArray.asfearray(ep[None, None]), zin, dt, withTangent=False)
+                rm = law.Integrate(FeArray.asfearray(em[None, None]), zin, dt, withTangent=False)
                 for r_ in (rp, rm):  # a neighbour on the other side of the elastic / plastic switch: no derivative across the kink
                     if ((np.asarray(r_[2])[0, 0][slots["p"]][0] - p_old) > 1e-13) != flowing:
                         straddles = True
@@ -220,7 +232,7 @@ def record_combo(job):
             st["tangent_err"] = min(errs)
         if not errs:
             st["tangent_skipped"] = 1  # every stencil straddles the yield switch
-        s2 = np.asarray(laws["newton"].Integrate(E_, zin)[0])[0, 0]
+        s2 = np.asarray(laws["newton"].Integrate(E_, zin, dt)[0])[0, 0]
         if np.abs(s2 - np.asarray(sig)[0, 0]).max() > 1e-7 * max(1.0, np.abs(s2).max()):
             st["solvers"] = 0
         steps.append(st)
